@@ -30,6 +30,7 @@ pub fn plan() -> Plan {
         s5: Some((2, 30, s4common::s5_default(false, 0))),
         enumerate_session_end: None,
         enumerate_symbols: None,
+        relabel: None,
     }
 }
 
